@@ -159,7 +159,7 @@ Process(ev, i) ==
                    ELSE t0
              enl == IF t0.pc = "top" THEN FALSE ELSE IF t0.pc = "enlarge_test" THEN TRUE ELSE aux.enl
          IN [s |-> t1, aux |-> [aux EXCEPT !.phase = "inker", !.enl = enl], gaux |-> gaux,
-             v |-> adv.v \cup V(ev.beta = (IF enl THEN One ELSE t1.beta), "conf_kernel_beta") \cup V(ev.n = t1.size, "conf_kernel_size")
+             v |-> adv.v \cup V(ev.beta = (IF enl THEN One ELSE t1.beta), "KernelTemperature") \cup V(ev.n = t1.size, "conf_kernel_size")
                        \cup V(t1.pc \in {"kernel", "fkernel"}, "conf_kernel_unexpected")
                        \cup V(Cfg.rng_route = "none" \/ ev.rng_user, "UserRngUsed")]
     [] ev.t = "kend" ->
